@@ -1276,4 +1276,29 @@ theorem stripContF_fuel (f : Nat) (s : Cps) (h : s.length ≤ f) : stripContF f 
   rw [h1] at h2
   exact Option.some.inj h2
 
+/-! ## one-pass value of a string token (the full-strength reading of T5.4 for STRING / INVALID) -/
+
+/-- **Independent one-pass decoder for string tokens**: an escaped backslash stays, backslash-newline is dropped,
+a hex escape is decoded — all decided on the SOURCE text, left to right. (The code decodes hex escapes first and
+then removes backslash-newline from the DECODED text; the two differ exactly in the region of known finding
+`C05-clean-decoded-newline`.) -/
+def stringValueF : Nat → Cps → Cps
+  | 0, _ => []
+  | _ + 1, [] => []
+  | f + 1, c :: t =>
+    if c ≠ 92 then c :: stringValueF f t
+    else match t with
+      | [] => [92]
+      | d :: u =>
+        if d = 92 then 92 :: 92 :: stringValueF f u
+        else if d = 13 ∧ u.head? = some 10 then stringValueF f (u.drop 1)
+        else if isNl d then stringValueF f u
+        else if isHex d then
+          decodeHex (t.take (runLen isHex t 6))
+              (92 :: t.take (runLen isHex t 6 + wsLen (t.drop (runLen isHex t 6))))
+            ++ stringValueF f (t.drop (runLen isHex t 6 + wsLen (t.drop (runLen isHex t 6))))
+        else 92 :: stringValueF f t
+
+def stringValue (s : Cps) : Cps := stringValueF s.length s
+
 end CssVerif.Tok
